@@ -4,6 +4,8 @@ encoder's primitives: files that are well-framed but semantically wrong in exact
 Uri source types, SharedString index out of range, rotation id not in the table, ...).
 Every one must produce Ok or Err from rbx_binary::from_reader, never a panic / abort."""
 import json, os, random, struct, sys
+import sys as _sys
+_sys.setrecursionlimit(20000)  # trees of the size scenarios are hundreds of levels deep
 
 sys.path.insert(0, os.path.dirname(os.path.dirname(os.path.abspath(__file__))))
 import refbin  # noqa: E402
